@@ -891,6 +891,67 @@ func main() {
 		r.Set("familyD_non_fresh_receiver_cases", nD)
 	}
 
+	// ---- family E: histories. Parsing is a function of the text: every ordered pair of texts from a
+	// small alphabet is parsed one directly after the other (the JSON form from one reused input
+	// buffer); the second result must be what the text gives on its own.
+	{
+		var nE int64
+		texts := []string{"", "x", "1.2.3.4", "1.2.3.4:0", "1.2.3.4:1", "1.2.3.4:60000", "1.2.3.4:60001", "1.2.3.4:65535", "1.2.3.5:60001", "10.20.30.40:12345", "10.20.30.41:12345",
+			"192.168.100.255:60001", "192.168.100.255:6000", "255.255.255.255:60000", "255.255.255.255", "0.0.0.0:0", "0.0.0.0", "0.0.0.0:60001", "1.2.3.256", "1.2.3.4:65536", "01.2.3.4", "1.2.3.4:", "1.2.3:4"}
+		buf := make([]byte, 0, 256)
+		loadJSON := func(t string) []byte {
+			j := jsonString(t)
+			for i := range buf[:cap(buf)] {
+				buf[:cap(buf)][i] = ' '
+			}
+			buf = buf[:len(j)]
+			copy(buf, j)
+			return buf
+		}
+		for ri := range roles {
+			o := &roles[ri]
+			for _, t1 := range texts {
+				for _, t2 := range texts {
+					c := spec.ClassifyAddr(o.role, t2)
+					if c.Verdict == spec.AddrUnconstrained {
+						continue
+					}
+					for _, site := range []string{"Parse", "Set", "UnmarshalJSON"} {
+						nE++
+						var v value
+						var err error
+						fn := func() { o.parse(t1); v, err = o.parse(t2) }
+						switch site {
+						case "Set":
+							fn = func() { o.set(t1); v, err = o.set(t2) }
+						case "UnmarshalJSON":
+							fn = func() { o.unmarshal(loadJSON(t1)); v, err = o.unmarshal(loadJSON(t2)) }
+						}
+						name := fmt.Sprintf("%s %s(%q) directly after %s(%q)", o.typ, site, t2, site, t1)
+						if p, msg, frame := vk.Guard(fn); p {
+							report("C15/"+o.typ+"."+site+"/history/panic/"+frame, o, t2, name+" panicked: "+msg)
+							continue
+						}
+						switch c.Verdict {
+						case spec.AddrMustAccept:
+							if err != nil {
+								report("C15/"+o.typ+"."+site+"/history/rejects-valid", o, t2, fmt.Sprintf("%s rejected: %v", name, err))
+							} else if !sameAddr(v.addr, c.IP) || v.port != c.Port {
+								report("C15/"+o.typ+"."+site+"/history/wrong-value", o, t2, fmt.Sprintf("%s = %s port %d, want %s port %d", name, v.addr, v.port, quad(c.IP), c.Port))
+							}
+						case spec.AddrMustReject:
+							if err == nil {
+								report("C15/"+o.typ+"."+site+"/history/accepts-"+c.Reason.String(), o, t2, fmt.Sprintf("%s accepted as %s port %d", name, v.addr, v.port))
+							}
+						}
+					}
+				}
+			}
+		}
+		total.evals += nE
+		r.Set("familyE_history_cases", nE)
+	}
+
 	// ---- evidence
 	r.Count(total.evals)
 	r.Distinct(distinct * int64(len(roles)))
@@ -933,7 +994,7 @@ func main() {
 		"(B) a.b.c.d+suffix with [B1] two octet positions over {0,1,9,10,99,100,199,255,256,999,00,01} (others fixed to 12.34.56.78) and [B3] each position over 0..255, each x %d port suffixes (none, boundary ports, 65536, 99999, leading zeros, signs, blanks, empty); "+
 		"[B2] all 65536 plain-decimal ports x %s address texts; [B4] %s; "+
 		"(C) every string within edit distance %d (insert/delete/substitute over a 12-symbol alphabet incl. '[',']','%%','x',' ') of 6 valid addresses. "+
-		"Each input x 4 roles x {Parse, Set, UnmarshalJSON, MustParse}; String()->Parse and MarshalJSON->UnmarshalJSON for every accepted in-form input. (D) Set and UnmarshalJSON on receivers already holding each of 3 addresses x 6 ports (built with XxxAddrFrom, rule-violating ports included) x 29 texts incl. the receiver's own String(). "+
+		"Each input x 4 roles x {Parse, Set, UnmarshalJSON, MustParse}; String()->Parse and MarshalJSON->UnmarshalJSON for every accepted in-form input. (D) Set and UnmarshalJSON on receivers already holding each of 3 addresses x 6 ports (built with XxxAddrFrom, rule-violating ports included) x 29 texts incl. the receiver's own String(). (E) every ordered pair of 23 texts parsed one directly after the other through Parse, Set and UnmarshalJSON (JSON from one reused buffer). "+
 		"A case is a (role, input string) pair; distinct = distinct non-empty input strings x 4 roles, counted conservatively "+
 		"(a string is counted for the first family that can contain it: B only if outside A's alphabets/length, C only if additionally not of the shape digits.digits.digits.digits[:suffix] of B; repeated entry points and round trips are evaluations, not cases)",
 		maxA1, maxA2, len(portSuffixes),
